@@ -246,6 +246,13 @@ def callables_case(case, res=None):
         if res is not None:
             res.discarded['lower-case run of the call graph exceeds 4 s'] += 1
         return
+    if any(o['outcome'] == ['raised', 'RecursionError'] for o in t0):
+        # where the interpreter's recursion is cut off depends on how deep the Python stack already is, and what was done up
+        # to that point stays done: such a run is not a function of the program alone (seen in the thorough tier as a
+        # difference that moved from callable to callable between replays)
+        if res is not None:
+            res.discarded['call graph runs into the recursion limit of the Python stack'] += 1
+        return
     for variant in (case['kwcase'], [1]):
         _compare_variant(case, t0, variant)
     if res is not None:
@@ -260,6 +267,8 @@ def _compare_variant(case, t0, variant):
     except _Slow:
         raise Violation('recased-callable-does-not-terminate', dict(case, variant=variant),
                         'lower-case run finished within 4 s, re-cased run not within 40 s per call')
+    if any(o['outcome'] == ['raised', 'RecursionError'] for o in t1):
+        return
     for a, b in zip(t0, t1):
         info = dict(case, lower=a['text'], cased=b['text'], variant=variant)
         if a['outcome'] != b['outcome']:
@@ -317,6 +326,8 @@ def replay(case):
     if 'prebuild' in case:
         from . import c08_prebuild
         c08_prebuild.replay(case)
+    elif 'args' in case and 'order' in case:
+        callables_case(dict(case))
     elif 'pop' in case:
         interpret_case(case, flips=False)
     else:
